@@ -465,6 +465,18 @@ def prohibited_case(ctx, W, case):
     try:
         listing = rt.wait(T.list())
         ctx.count("prohibited-nodes-listed", sum(1 for (n, md) in listing.values() if type(n).__name__ == "ProhibitedNode"))
+        # correspondence: what packing sees of a ProhibitedNode (model: `prohibitedView` of the wrapped node)
+        from allmydata.dirnode import pack_children
+        key = T._node.get_writekey()
+        for nm_, (pn, md) in sorted(listing.items()):
+            if type(pn).__name__ != "ProhibitedNode":
+                continue
+            inner = pn.wrapped_node
+            packed = pack_children({nm_: (pn, {})}, key, False)
+            W["lines"].append("packp %s - %s~%s~%s" % (c19.class_table({inner.get_write_uri(), inner.get_readonly_uri()}),
+                                                       hx(nm_.encode()), c19.show_node(inner), hx(b"{}")))
+            W["impls"].append("ok:" + hx(c19.to_model_cipher(T, packed)))
+            W["cases"].append({"prohibited-pack": nm_, "case": case})
         judge("rename", attempt(lambda: T.move_child_to("file", T, "file-renamed")))
         judge("set_metadata_for", attempt(lambda: T.set_metadata_for("dir", {"touched": 1})))
         judge("set_node", attempt(lambda: T.set_node("dir-again", listing["dir"][0])))
@@ -504,7 +516,7 @@ def run(ctx):
     with grid.Runtime(seed=ctx.seed, policy="random") as rt:
         g = grid.Grid(grid.fresh_dir("c18"), rt, num_servers=3, num_clients=2, k=1, happy=1, n=2)
         try:
-            W = {"rt": rt, "c": g.clients[0], "c2": g.clients[1], "g": g}
+            W = {"rt": rt, "c": g.clients[0], "c2": g.clients[1], "g": g, "lines": lines, "impls": impls, "cases": cases}
             for case in cases_in:
                 one_case(ctx, W, case, lines, impls, cases)
             for case in lone:
@@ -516,4 +528,4 @@ def run(ctx):
     if model is not None:
         ctx.compare("_unpack_contents through write handle / read handle vs the model", cases, impls, model)
     if cases:
-        ctx.sample({"dir": cases[-1]["dir"], "mode": cases[-1]["mode"], "phase": cases[-1]["phase"], "impl": impls[-1][:300]})
+        ctx.sample({k: v for k, v in cases[-1].items() if k != "case"} | {"impl": impls[-1][:300]})
